@@ -312,6 +312,117 @@ fn finish(part: &mut Part, results: Vec<(Tally, Vec<Viol>)>) {
     part.distinct_nontrivial = part.tally.get("cases_with_expected_calls");
 }
 
+/// Part D: a handle dropped by another thread while a notification is in progress (the registry's
+/// read lock is held by the notifying thread). One schedule per (which handle, kind of the write
+/// in progress, kind of the later write): the drop starts while the slow callback runs and can
+/// only complete after it returned; afterwards the dropped subscription must not be called.
+pub fn drop_during_notification() -> Part {
+    use std::sync::mpsc;
+    use std::time::Duration;
+    let mut part = Part::new("listeners/D-handle-dropped-while-notifying");
+    part.rule = "two subscriptions on prefix \"k\" and a slow subscription on prefix \"slow\" on a real node; thread 1 performs a write matching \"slow\" (local set / replicated delta) whose callback signals thread 2 and keeps running for 40 ms; thread 2 drops one of the \"k\" handles (first / second subscribed) during that window; after both finished, a later write on \"k...\" (local set / set_with_ttl / replicated) must call the kept subscription exactly once and the dropped one not at all; all 2 x 2 x 3 combinations, plus the drop before and after the slow write; the two threads are real OS threads synchronised by channels (one fixed interleaving per case: drop begins inside the notification window)".into();
+    let mut cases = 0u64;
+    for dropped in 0..2usize {
+        for slow_write in 0..2u8 {
+            for later in 0..3u8 {
+                for timing in 0..3u8 {
+                    cases += 1;
+                    let replay = json!({"engine":"listeners","kind":"drop-during-notification","dropped":dropped,"slow_write":slow_write,"later_write":later,"timing":timing});
+                    let mut node = Node::new(&Id::v4("n", 1, 10_001), &NodeOpts::default());
+                    let x = owner_x();
+                    node.cc.verif_process_message(real::build_real(&Msg::Syn { digest: vec![DigestEntry { id: x.clone(), heartbeat: 1, gc: 0, mv: 0 }], cluster_id: "c".into() }).unwrap());
+                    let log: Log = Arc::new(Mutex::new(vec![]));
+                    let h0 = subscribe(&node, "k", 0, &log);
+                    let h1 = subscribe(&node, "k", 1, &log);
+                    let (entered_tx, entered_rx) = mpsc::channel::<()>();
+                    let (dropping_tx, dropping_rx) = mpsc::channel::<()>();
+                    let entered_tx = Mutex::new(entered_tx);
+                    let dropping_rx = Mutex::new(dropping_rx);
+                    let _slow = node.cc.subscribe_event("slow", move |_ev| {
+                        let _ = entered_tx.lock().unwrap().send(());
+                        // wait until the other thread is about to drop, then keep the notification going
+                        let _ = dropping_rx.lock().unwrap().recv_timeout(Duration::from_secs(2));
+                        std::thread::sleep(Duration::from_millis(40));
+                    });
+                    let (mut keep, victim) = if dropped == 0 { (Some(h1), h0) } else { (Some(h0), h1) };
+                    let kept_idx = if dropped == 0 { 1usize } else { 0usize };
+                    let mut victim = Some(victim);
+                    if timing == 0 {
+                        drop(victim.take());
+                    }
+                    let kv = |k: &str, v: &str, ver: u64, st: u8| Op::Kv { key: k.into(), value: v.into(), version: ver, status: st };
+                    let slow_msg = real::build_real(&Msg::Ack { ops: vec![Op::Node { id: x.clone(), gc: 0, from: 0 }, kv("slow:x", "s", 1, 0)] }).unwrap();
+                    let res = guarded(|| {
+                        std::thread::scope(|sc| {
+                            let v = if timing == 1 { victim.take() } else { None };
+                            let t2 = sc.spawn(move || {
+                                if let Some(h) = v {
+                                    if entered_rx.recv_timeout(Duration::from_secs(2)).is_ok() {
+                                        let _ = dropping_tx.send(());
+                                        drop(h);
+                                    }
+                                } else {
+                                    let _ = dropping_tx.send(());
+                                }
+                            });
+                            if slow_write == 0 {
+                                node.cc.self_node_state().set("slow:x", "s");
+                            } else {
+                                node.cc.verif_process_message(slow_msg);
+                            }
+                            let _ = t2.join();
+                        });
+                    });
+                    if let Err(p) = res {
+                        part.violation("C15", format!("panic while a handle was dropped during a notification: {p}"), "panic".into(), replay);
+                        continue;
+                    }
+                    if timing == 2 {
+                        drop(victim.take());
+                    }
+                    log.lock().unwrap().clear();
+                    let (key, value, owner): (&str, &str, &str) = match later {
+                        0 => {
+                            node.cc.self_node_state().set("k1", "later");
+                            ("1", "later", "n")
+                        }
+                        1 => {
+                            node.cc.self_node_state().set_with_ttl("k2", "later-ttl");
+                            ("2", "later-ttl", "n")
+                        }
+                        _ => {
+                            let m = real::build_real(&Msg::Ack { ops: vec![Op::Node { id: x.clone(), gc: 0, from: if slow_write == 1 { 1 } else { 0 } }, kv("k3", "later-repl", 2, 0)] }).unwrap();
+                            node.cc.verif_process_message(m);
+                            ("3", "later-repl", "x")
+                        }
+                    };
+                    let got = log.lock().unwrap().clone();
+                    let want: Vec<Call> = vec![(kept_idx, key.to_string(), value.to_string(), owner.to_string())];
+                    if got != want {
+                        part.violation(
+                            "C15",
+                            format!("handle of subscription {dropped} dropped {} a notification in progress on another thread; a later write then produced calls {got:?}, expected {want:?}", ["before", "during", "after"][timing as usize]),
+                            "dropped-subscription-still-called".into(),
+                            replay,
+                        );
+                    }
+                    if timing == 1 {
+                        part.tally.inc("drops_during_a_notification");
+                    }
+                    drop(keep.take());
+                }
+            }
+        }
+    }
+    part.states = cases;
+    part.transitions = cases;
+    part.executions = cases;
+    part.distinct_nontrivial = part.tally.get("drops_during_a_notification");
+    part.sample(json!({"dropped": 1, "slow_write": "replicated", "later_write": "set_with_ttl", "timing": "during"}));
+    part.require("drops_during_a_notification");
+    part
+}
+
 pub fn run(tier: Tier, started: Instant) -> Vec<Part> {
     let all = strings_up_to(3);
     let deadline = started + std::time::Duration::from_secs(tier.pick(55, 3000));
@@ -434,6 +545,7 @@ pub fn run(tier: Tier, started: Instant) -> Vec<Part> {
     }
     c.sample(json!({"key": "aé", "prefixes": ["", "a", "aa", "ab", "aé", "aéa", "aéb", "b"], "write": "ReplNewer"}));
     parts.push(c);
+    parts.push(drop_during_notification());
     parts
 }
 
